@@ -51,8 +51,8 @@ ENCODING = ["fcp.encoding:PackedEncoder._get_type_length", "fcp.encoding:PackedE
             "fcp.specs.type:NumericType.get_length", "fcp.specs.enum:Enum.max", "lemmas:max_is_enum_max"]
 
 # per-function solver budgets (ms) above the tier default: sized so that the verdict does not flip on a loaded machine
-SLOW = {"fcp.serde:_decode": 120000, "lemmas:unpack_byte": 60000, "lemmas:bit_eq": 30000, "lemmas:rt_dyn": 30000, "lemmas:rt": 60000, "theorems:C01_roundtrip": 60000, "theorems:C09_general": 60000, "theorems:C09_dbc": 60000, "lemmas:flat_all_2": 30000, "lemmas:flat_all_1": 30000, "lemmas:loc": 60000, "lemmas:loc_struct": 30000, "lemmas:loc_elems": 30000, "lemmas:loc_str": 30000, "lemmas:rt_str": 30000, "fcp.serde:_decode_struct": 60000, "fcp.serde:_decode_str": 30000, "fcp.serde:decode": 30000, "fcp.serde:_encode": 30000,
-        "fcp.serde:_decode_dynamic_array": 30000, "fcp.serde:_encode_struct": 30000}
+SLOW = {"fcp.serde:_decode": 120000, "lemmas:val_of_word_bits": 60000, "lemmas:unpack_facts": 30000, "lemmas:flat_at": 30000, "lemmas:unpack_byte": 60000, "lemmas:bit_eq": 30000, "lemmas:rt_dyn": 30000, "lemmas:rt": 60000, "theorems:C01_roundtrip": 60000, "theorems:C09_general": 60000, "theorems:C09_dbc": 60000, "lemmas:flat_all_2": 30000, "lemmas:flat_all_1": 30000, "lemmas:loc": 60000, "lemmas:loc_struct": 30000, "lemmas:loc_elems": 30000, "lemmas:loc_str": 30000, "lemmas:rt_str": 30000, "fcp.serde:_decode_struct": 60000, "fcp.serde:_decode_str": 30000, "fcp.serde:decode": 30000, "fcp.serde:_encode": 30000,
+        "fcp.serde:_decode_dynamic_array": 30000, "fcp.serde:_encode_struct": 60000}
 
 PLANS = {
     "C04": {
